@@ -150,7 +150,10 @@ panic = "unwind"
     lock = os.path.join(common.REPO, "Cargo.lock")
     if not os.path.exists(os.path.join(cdir, "Cargo.lock")):
         import shutil
-        shutil.copy(lock, os.path.join(cdir, "Cargo.lock"))
+        for cand in (lock, "/repo/Cargo.lock"):
+            if os.path.exists(cand):
+                shutil.copy(cand, os.path.join(cdir, "Cargo.lock"))
+                break
     rc, diags, arts, err = common.cargo_json(cdir, ("build",))
     if rc != 0 or binname not in arts:
         msgs = "\n".join(common.diag_text(d) for d in diags if d.get("level") == "error")
